@@ -31,6 +31,10 @@ class _Tokens:
       return str(1000 + self.n)                      # all-digit word (looks like a counter)
     if r < 0.10:
       return "- " + self.rng.choice(WORD_PREFIX) + str(self.n)   # dialogue dash
+    if r < 0.16:
+      # an ampersand glued into a word (Q&A, AT&T): plain text in SubRip; never the start of a character reference the
+      # HTML-based reader could decode
+      return self.rng.choice(["Q&A", "AT&T", "R&D", "x&y", "k&"]) + str(self.n)
     return self.rng.choice(WORD_PREFIX) + str(self.n) + self.rng.choice(PUNCT)
 
 
